@@ -238,6 +238,12 @@ int mc_explore(const MCKind *k)
             }
         }
     }
+    if (nnodes > 1) {
+        /* an actual explored history for the evidence: the last state that was discovered */
+        int d = path_of(nnodes - 1, hist);
+        memcpy(cur_hist, hist, sizeof(uint16_t) * (size_t)d); cur_len = d;
+        sample_add("%s: %zu states; last discovered state reached by: %s", k->name, nnodes, mc_history_text());
+    }
     if (getenv("MC_STATS")) {
         size_t hist_d[MC_MAX_DEPTH + 1] = {0}, q;
         for (q = 0; q < nnodes; ++q) ++hist_d[nodes[q].depth];
